@@ -34,6 +34,10 @@ run seeded/S-C16b/patch.diff C16
 run seeded/S-C11c/patch.diff C11
 run seeded/S-C04c/patch.diff C04
 run seeded/S-C10c/patch.diff C10
+run seeded/S-C06c/patch.diff C06
+run seeded/S-C13c/patch.diff C13 C04
+run seeded/S-C15c/patch.diff C15
+run seeded/S-C16c/patch.diff C16
 run mutants/W01_write_swallows_io_error.patch C10
 run mutants/W02_write_skips_unrestricted_files.patch C10
 run mutants/W03_write_sorts_model_first.patch C11
